@@ -83,6 +83,9 @@ def run(tier):
     _selftest_guarded(rep, selftest, recs, h0, wd)
     rep.assumptions.append("crash images are composed by the harness from the real old and new file bytes in the order of writes of "
                            "encrypt_and_store (tmp, rename); with hook H4 they would be captured at the crash points themselves")
+    # specification growth hosted here (upgrade staging / rollback state machines): conformance, informational (MODEL-DRIFT, never a VIOLATION)
+    import growth_upgrade
+    growth_upgrade.run(rep, wd, big)
     return rep.finish(
         rule="case = one retrieve (abstract history of the segment so far, seed id, password token, ok/err) or one probe of a "
              "crash image; distinct by content; every result is judged by TLC with OnlyCurrentPw / CurrentPwWorks on the model store state, crash images with "
